@@ -14,7 +14,7 @@ RULE = (
     "patience x atol x rtol x every index (enumerated); optim_flat: real optimisations of a regression "
     "model with an id-reporting Calc (batch membership observed through an ordered debug callback), "
     "n in 7..40 with batch sizes not dividing n, with/without validation model and history options. "
-    "Also: two scalar parameters listed non-alphabetically; one Stopper object re-configured between settings / evaluated by hand before optim_flat. non-trivial = history where exactly one tolerance clause fires at an index > patience; "
+    "Also: two scalar parameters listed non-alphabetically; one Stopper object re-configured between settings / evaluated by hand before optim_flat. Round 5: stop_now / continue_ with plain Python-int indices. non-trivial = history where exactly one tolerance clause fires at an index > patience; "
     "optimisation with n mod b != 0 and >= 3 iterations; distinct by value hash"
 )
 REQUIRED = ["stop_early_rule", "stop_now_rule", "which_best_rule", "position_is_recorded_best",
